@@ -1051,9 +1051,10 @@ impl World {
                 }
                 body = &body[4 + alen + 2..];
             }
-            let pos = sent.iter().position(|p| p[..] == body[..]);
+            // (two datagrams may carry the same bytes, e.g. two empty ones: each reply matches one not yet answered)
+            let pos = sent.iter().enumerate().position(|(k, p)| !seen[k] && p[..] == body[..]);
             match pos {
-                Some(k) if !seen[k] => {
+                Some(k) => {
                     seen[k] = true;
                     mine += 1;
                 }
